@@ -122,50 +122,71 @@ fn punit(n: usize, r: f64) -> f64 { let l = if r.abs() > 0.0 && r.is_finite() { 
 
 /// an f64 with a full 53-bit significand from integers: (hi * 2^26 + lo) * 2^e, or the util form {m, e} / integer
 fn f64_of(v: &Value) -> f64 {
+    if v.get("nz").is_some() { return -0.0; }
     if v.get("hi").is_some() { let hi = v["hi"].as_i64().unwrap() as f64; let lo = v["lo"].as_i64().unwrap() as f64; (hi * 67108864.0 + hi.signum() * lo) * (2.0f64).powi(v["e"].as_i64().unwrap() as i32) }
     else { f64_from(v) }
 }
+/// exact integer encoding of any finite f64 (the inverse of f64_of)
+fn jf64_exact(x: f64) -> Value {
+    if x == 0.0 { return if x.is_sign_negative() { json!({"nz": 1}) } else { json!(0) }; }
+    let b = x.to_bits(); let ex = ((b >> 52) & 0x7ff) as i64; let fr = (b & ((1u64 << 52) - 1)) as i64;
+    let (m, e) = if ex == 0 { (fr, -1074) } else { (fr | (1i64 << 52), ex - 1075) };
+    let sg = if x < 0.0 { -1 } else { 1 };
+    if m >> 26 == 0 { return json!({"m": sg * m, "e": e}); }
+    json!({"hi": sg * (m >> 26), "lo": m & ((1 << 26) - 1), "e": e})
+}
+/// the f64 k units in the last place away from x (k may be negative), x finite and non-zero, no sign change
+fn ulps(x: f64, k: i64) -> f64 { let b = x.to_bits() as i64; f64::from_bits((if x > 0.0 { b + k } else { b - k }) as u64) }
 fn jf64(rng: &mut StdRng, emin: i32, emax: i32) -> Value {
     let hi: i64 = rng.gen_range(1 << 26..1 << 27) * if rng.gen_bool(0.5) { 1 } else { -1 };
     json!({"hi": hi, "lo": rng.gen_range(0..1i64 << 26), "e": rng.gen_range(emin..=emax) - 52})
 }
 
 // ------------------------------------------------------------------ stand-alone float checks
+/// lhs <= rhs up to rounding, in units; a non-finite value on either side never passes
+fn over(lhs: f64, rhs: f64, unit: f64) -> i64 { if !lhs.is_finite() || !rhs.is_finite() { SAT } else { units((lhs - rhs).max(0.0), unit) } }
+/// |a - b| in units; non-finite values never pass
+fn apart(a: f64, b: f64, unit: f64) -> i64 { if !a.is_finite() || !b.is_finite() { SAT } else { units((a - b).abs(), unit) } }
+
 fn exec_fnorms(case: &Value, op: &Value, cid: i64, k: usize, out: &mut Out) {
     let xs: Vec<f64> = op["xs"].as_array().unwrap().iter().map(f64_of).collect();
     let ys: Vec<f64> = op["ys"].as_array().unwrap().iter().map(f64_of).collect();
-    let p = f64_of(&op["p"]); let sc = (2.0f64).powi(geti(op, "k2") as i32);
+    let p = f64_of(&op["p"]);
+    // scaling factor: a power of two, or 0 (homogeneity at alpha = 0: every norm of 0 * x is 0)
+    let sc = if op.get("alpha0").is_some() { 0.0 } else { (2.0f64).powi(geti(op, "k2") as i32) };
     let n = xs.len();
     let r = guarded(|| {
         let x = Vector::<f64>::create(xs.clone()); let y = Vector::<f64>::create(ys.clone());
         let xs2: Vec<f64> = xs.iter().map(|a| a * sc).collect(); let x2 = Vector::<f64>::create(xs2);
         let (n1, n2, np) = (x.norm_1(), x.norm_2(), x.norm_p(p));
-        let u2 = units((n2 - ref_norm_p(&xs, 2.0)).abs(), nunit(n, ref_norm_p(&xs, 2.0)));
-        let upp = units((np - ref_norm_p(&xs, p)).abs(), punit(n, ref_norm_p(&xs, p)));
-        let mut chain = units((n2 - n1).max(0.0), nunit(n, n1));
-        let mut nonneg = n1 >= 0.0 && n2 >= 0.0 && np >= 0.0;
-        let hom1 = x2.norm_1().to_bits() == (sc * n1).to_bits();
-        let hom2 = units((x2.norm_2() - sc * n2).abs(), nunit(n, sc * n2));
-        let homp = units((x2.norm_p(p) - sc * np).abs(), punit(n, sc * np).max(sc * punit(n, np)));
+        let (y1, y2, yp) = (y.norm_1(), y.norm_2(), y.norm_p(p));
+        let u2 = apart(n2, ref_norm_p(&xs, 2.0), nunit(n, ref_norm_p(&xs, 2.0)));
+        let upp = apart(np, ref_norm_p(&xs, p), punit(n, ref_norm_p(&xs, p)));
+        let mut chain = over(n2, n1, nunit(n, n1));
+        let mut nonneg = n1 >= 0.0 && n2 >= 0.0 && np >= 0.0 && y1 >= 0.0 && y2 >= 0.0 && yp >= 0.0;
+        // numeric equality (== on finite values is bit-identity except for the sign of zero, which no norm defines)
+        let hom1 = x2.norm_1() == sc * n1;
+        let hom2 = apart(x2.norm_2(), sc * n2, nunit(n, sc * n2));
+        let homp = apart(x2.norm_p(p), sc * np, punit(n, sc * np).max(sc * punit(n, np)));
         let mut homi = true;
         let z = &x + &y;
-        let mut tri = units((z.norm_1() - (n1 + y.norm_1())).max(0.0), nunit(n, n1 + y.norm_1())).max(units((z.norm_2() - (n2 + y.norm_2())).max(0.0), nunit(n, n2 + y.norm_2())));
-        tri = tri.max(units((z.norm_p(p) - (np + y.norm_p(p))).max(0.0), punit(n, np + y.norm_p(p))));
+        let mut tri = over(z.norm_1(), n1 + y1, nunit(n, n1 + y1)).max(over(z.norm_2(), n2 + y2, nunit(n, n2 + y2))).max(over(z.norm_p(p), np + yp, punit(n, np + yp)));
+        nonneg = nonneg && z.norm_1() >= 0.0 && z.norm_2() >= 0.0 && z.norm_p(p) >= 0.0;
         if n > 0 {
             let ni = x.norm_inf();
-            nonneg = nonneg && ni >= 0.0;
-            chain = chain.max(units((ni - n2).max(0.0), nunit(n, n2))).max(units((ni - np).max(0.0), punit(n, np))).max(units((np - n1).max(0.0), punit(n, n1)));
-            homi = x2.norm_inf().to_bits() == (sc * ni).to_bits();
-            tri = tri.max(units((z.norm_inf() - (ni + y.norm_inf())).max(0.0), nunit(n, ni + y.norm_inf())));
+            nonneg = nonneg && ni >= 0.0 && z.norm_inf() >= 0.0;
+            chain = chain.max(over(ni, n2, nunit(n, n2))).max(over(ni, np, punit(n, np))).max(over(np, n1, punit(n, n1)));
+            homi = x2.norm_inf() == sc * ni;
+            tri = tri.max(over(z.norm_inf(), ni + y.norm_inf(), nunit(n, ni + y.norm_inf())));
             // the inf-norm is the largest absolute value: exact
             let want = xs.iter().fold(0.0f64, |m, a| m.max(a.abs()));
-            if ni.to_bits() != want.to_bits() { chain = SAT; }
+            if ni != want { chain = SAT; }
         }
         json!({"u2": u2, "up": upp, "chain": chain, "tri": tri, "homp": homp.max(hom2), "nonneg": nonneg, "hom1": hom1, "homi": homi})
     });
     let mut e = match r { Ok(v) => { let mut v = v; v["panic"] = json!(false); v } Err(_) => json!({"panic": true}) };
     e["op"] = json!("fnorms"); e["ty"] = json!("f64"); e["cid"] = json!(cid); e["k"] = json!(k); e["n"] = json!(n); e["pre"] = json!([]); e["post"] = json!([]);
-    e["p16"] = json!((p * 16.0).round() as i64);
+    e["p16"] = json!((p * 16.0).round() as i64); e["kind"] = json!(gets(op, "kind"));
     let _ = case; out.ev(e);
 }
 
@@ -174,15 +195,18 @@ fn exec_space(op: &Value, cid: i64, k: usize, out: &mut Out) {
     let p = if name == "powspace" { f64_of(&op["p"]) } else { 1.0 };
     let r = guarded(|| if name == "linspace" { Vector::<f64>::linspace(a, b, n) } else { Vector::<f64>::powspace(a, b, n, p) });
     let mut e = json!({"op": name, "ty": "f64", "cid": cid, "k": k, "n": n, "pre": [], "post": []});
+    if let Some(u) = op.get("ulps") { e["ulps"] = u.clone(); }
     match r {
         Err(_) => { e["panic"] = json!(true); }
         Ok(v) => {
             let w = &v.vec; let len = w.len();
             e["panic"] = json!(false); e["len"] = json!(len);
-            e["first_eq"] = json!(len > 0 && w[0].to_bits() == a.to_bits());
+            e["first_eq"] = json!(len > 0 && w[0] == a);
             e["last_units"] = json!(if len > 0 { units((w[len - 1] - b).abs(), f64::EPSILON * a.abs().max(b.abs()) / cal()) } else { SAT });
             let up = b >= a;
-            e["mono"] = json!(w.windows(2).all(|t| if up { t[1] >= t[0] } else { t[1] <= t[0] }));
+            let (nondec, noninc) = (w.windows(2).all(|t| t[1] >= t[0]), w.windows(2).all(|t| t[1] <= t[0]));
+            // monotone in the direction of b - a; a == b has no direction: either one (NaN entries fail both)
+            e["mono"] = json!(if b > a { nondec } else if b < a { noninc } else { nondec || noninc });
             e["strict"] = json!(w.windows(2).all(|t| if up { t[1] > t[0] } else { t[1] < t[0] }));
             // well separated: the smallest exact increment is far above the rounding error of the elements
             let m = (n as f64) - 1.0;
@@ -247,6 +271,9 @@ pub fn run<T: Elem>(case: &Value, out: &mut Out) {
             }
         }
         if first { e["pre"] = pre_re.clone(); if T::CX { e["prei"] = pre_im.clone(); } first = false; }
+        // adopt: the caller keeps the returned vector as the new value of its variable (x = x - y, x = Vector::zeros(n), ...)
+        let adopt = op.get("adopt").and_then(|a| a.as_bool()).unwrap_or(false);
+        if adopt && !so.panic && gets(&e, "op") != "norm_units" { if let Some(rv) = &so.rv { v = rv.clone(); } }
         e["post"] = jvec(&v, Part::Re); if T::CX { e["posti"] = jvec(&v, Part::Im); }
         e["panic"] = json!(so.panic);
         if gets(&e, "op") != "norm_units" {
@@ -274,7 +301,9 @@ const TYS: [&str; 4] = ["i64", "rat", "f64", "cx"];
 const MAXLEN: usize = 64;
 const BOUND: i64 = 100_000;       // magnitude bound kept on every entry so that the model's 32-bit arithmetic cannot overflow
 
-fn small(rng: &mut StdRng) -> i64 { rng.gen_range(-9..=9) }
+/// small integers; the special values 0, 1, -1 are drawn systematically, not only by chance
+fn small(rng: &mut StdRng) -> i64 { if rng.gen_bool(0.25) { [0, 1, -1, 0][rng.gen_range(0..4)] } else { rng.gen_range(-9..=9) } }
+fn maybe_adopt(mut o: Value, yes: bool) -> Value { if yes { o["adopt"] = json!(true); } o }
 fn with_x(mut o: Value, rng: &mut StdRng, cx: bool, x: i64) -> Value { o["x"] = json!(x); if cx { o["xi"] = json!(small(rng)); } o }
 fn with_v(mut o: Value, rng: &mut StdRng, cx: bool, n: usize, lo: i64, hi: i64) -> Value { o["v"] = rand_vec_json(rng, n, lo, hi); if cx { o["vi"] = rand_vec_json(rng, n, lo, hi); } o }
 fn form3(rng: &mut StdRng) -> &'static str { ["ref", "mixed", "own"][rng.gen_range(0..3)] }
@@ -315,10 +344,13 @@ fn rand_op(rng: &mut StdRng, t: &mut Track, ty: &str) -> Value {
                     let mut o = json!({"op": "div_assign", "x": s}); if cx { o["xi"] = json!(si); } o }
             33 => json!({"op": "size"}),
             34..=35 => json!({"op": "get", "i": ix(rng, n, bad)}),
-            36 => json!({"op": "clone"}),
-            37..=38 => { let m = if bad { n + 1 } else { n }; let mut o = with_v(json!({"op": if pick == 37 { "add" } else { "sub" }}), rng, cx, m, -9, 9); o["form"] = json!(form3(rng)); o }
-            39 => json!({"op": "neg"}),
-            40..=41 => { let x = rng.gen_range(-3..=3); let mut o = with_x(json!({"op": "mul_scalar"}), rng, cx, x); if cx { o["xi"] = json!(rng.gen_range(-3..=3)); } o["form"] = json!(if f64ty && rng.gen_bool(0.5) { "left" } else { "own" }); o }
+            36 => maybe_adopt(json!({"op": "clone"}), rng.gen_bool(0.3)),
+            // x = x + y, x = -x, x = x * s, x = Vector::zeros(n) ...: the returned vector becomes the value under test
+            37..=38 => { let m = if bad { n + 1 } else { n }; let mut o = with_v(json!({"op": if pick == 37 { "add" } else { "sub" }}), rng, cx, m, -9, 9); o["form"] = json!(form3(rng));
+                         if m == n && t.b + 9 <= BOUND && rng.gen_bool(0.3) { t.b += 9; o["adopt"] = json!(true); } o }
+            39 => maybe_adopt(json!({"op": "neg"}), rng.gen_bool(0.3)),
+            40..=41 => { let x = rng.gen_range(-3..=3); let mut o = with_x(json!({"op": "mul_scalar"}), rng, cx, x); if cx { o["xi"] = json!(rng.gen_range(-3..=3)); } o["form"] = json!(if f64ty && rng.gen_bool(0.5) { "left" } else { "own" });
+                         let g = ((x as i64).abs() + if cx { geti(&o, "xi").abs() } else { 0 }).max(1); if t.b * g <= BOUND && rng.gen_bool(0.3) { t.b *= g; o["adopt"] = json!(true); } o }
             42..=43 => { let m = if bad { n + 1 } else { n }; with_v(json!({"op": "dot"}), rng, cx, m, -9, 9) }
             44 => json!({"op": "sum"}),
             45..=47 => { let (a, b) = if bad { if rng.gen_bool(0.5) { (ix(rng, n, false) + 1, 0) } else { (0, n as i64) } } else { if n == 0 { continue; } let a = rng.gen_range(0..n); (a as i64, rng.gen_range(a..n) as i64) };
@@ -331,9 +363,9 @@ fn rand_op(rng: &mut StdRng, t: &mut Track, ty: &str) -> Value {
             54 => { if !cx { continue; } json!({"op": if rng.gen_bool(0.5) { "conj" } else { "real" }}) }
             55 => { if !f64ty { continue; } json!({"op": "norm_2"}) }
             56 => { if !f64ty { continue; } json!({"op": "norm_p", "p": rng.gen_range(1..=8)}) }
-            57 => { let x = small(rng); let m = rng.gen_range(0..=MAXLEN); with_x(json!({"op": "new", "n": m}), rng, cx, x) }
-            58 => json!({"op": "zeros", "n": rng.gen_range(0..=MAXLEN)}),
-            _ => json!({"op": "ones", "n": rng.gen_range(0..=MAXLEN)}),
+            57 => { let x = small(rng); let m = rng.gen_range(0..=MAXLEN); let a = rng.gen_bool(0.3); if a { t.n = m; t.b = 9; } maybe_adopt(with_x(json!({"op": "new", "n": m}), rng, cx, x), a) }
+            58 => { let m = rng.gen_range(0..=MAXLEN); let a = rng.gen_bool(0.3); if a { t.n = m; t.b = 9; } maybe_adopt(json!({"op": "zeros", "n": m}), a) }
+            _ => { let m = rng.gen_range(0..=MAXLEN); let a = rng.gen_bool(0.3); if a { t.n = m; t.b = 9; } maybe_adopt(json!({"op": "ones", "n": m}), a) }
         };
         return o;
     }
@@ -430,4 +462,114 @@ pub fn gen(tier: &str, seed: u64, out: &mut Out) {
                  else { let p = match i % 8 { 1 => json!(1), 3 => json!(2), 5 => json!({"m": 1, "e": -1}), _ => json!({"m": rng.gen_range(4..=64), "e": -4}) }; json!({"op": "powspace", "a": a, "b": b, "n": n, "p": p}) };
         push(out, json!({"ty": "f64", "init": [], "ops": [op]}));
     }
+    // (g) ALL-ZERO vectors of every length 1..64, reached in every way the API offers (x - x, x * 0, x *= 0, x -= x,
+    //     assign(0), clear + resize, Vector::zeros), under every norm and reduction: the expectation is exactly 0.
+    //     In floating point x * 0 leaves -0.0 at the negative entries: signed zeros are part of the data.
+    for n in 1..=MAXLEN { for (which, ty) in ["f64", TYS[[0usize, 1, 3][n % 3]]].into_iter().enumerate() {
+        if !quick && which == 1 { for t2 in ["i64", "rat", "cx"] { if t2 != ty { zero_case(&mut rng, n, t2, &mut |c| push(out, c)); } } }
+        zero_case(&mut rng, n, ty, &mut |c| push(out, c));
+    } }
+    // (h) special exact values, systematically for every length 1..64: entries +-1, a single non-zero entry, already sorted and
+    //     reverse-sorted inputs with ties, all elements equal, duplicate maxima of opposite sign (incl. at index 0)
+    for n in 1..=MAXLEN { for j in 0..(if quick { 3 } else { 6 }) {
+        let kind = (n + j) % 6;
+        let tys: Vec<&str> = if quick { vec![TYS[(n + j) % 4]] } else { TYS.to_vec() };
+        for ty in tys { special_case(&mut rng, n, kind, ty, &mut |c| push(out, c)); }
+    } }
+    // (i) general f64 norms at the special points: all-zero x (with signed zeros), y = -x (x + y = 0), alpha = 0, a single
+    //     non-zero entry, entries +-1, zeros / -0.0 / +-1 mixed into random data
+    for n in 1..=MAXLEN { for kind in 0..6usize { for _ in 0..(if quick { 1 } else { 6 }) {
+        let rf = |rng: &mut StdRng| -> f64 { f64_of(&jf64(rng, -3, 3)) };
+        let mut xs: Vec<f64> = (0..n).map(|_| rf(&mut rng)).collect(); let mut ys: Vec<f64> = (0..n).map(|_| rf(&mut rng)).collect();
+        match kind {
+            0 => { for k in 0..n { xs[k] = if (k + n) % 2 == 0 { 0.0 } else { -0.0 }; } }
+            1 => { for k in 0..n { ys[k] = -xs[k]; } }
+            2 => {}
+            3 => { let j = rng.gen_range(0..n); for k in 0..n { if k != j { xs[k] = if k % 3 == 0 { -0.0 } else { 0.0 }; } } }
+            4 => { for k in 0..n { xs[k] = if rng.gen_bool(0.5) { 1.0 } else { -1.0 }; ys[k] = if rng.gen_bool(0.5) { 1.0 } else { -1.0 }; } }
+            _ => { for k in 0..n { if rng.gen_bool(0.4) { xs[k] = [0.0, -0.0, 1.0, -1.0][rng.gen_range(0..4)]; } if rng.gen_bool(0.2) { ys[k] = -xs[k]; } } }
+        }
+        let p = if rng.gen_bool(0.5) { json!(rng.gen_range(1..=8)) } else { json!({"m": rng.gen_range(16..=128), "e": -4}) };
+        let mut op = json!({"op": "fnorms", "kind": (["zero", "negx", "alpha0", "single", "pm1", "mixed"][kind]), "xs": xs.iter().map(|a| jf64_exact(*a)).collect::<Vec<Value>>(),
+                            "ys": ys.iter().map(|a| jf64_exact(*a)).collect::<Vec<Value>>(), "p": p, "k2": rng.gen_range(-40..=40)});
+        if kind == 2 || (kind == 5 && rng.gen_bool(0.3)) { op["alpha0"] = json!(1); }
+        push(out, json!({"ty": "f64", "init": [], "ops": [op]}));
+    } } }
+    // (j) generated sequences whose end points coincide or are a few units in the last place apart (non-dyadic values):
+    //     the step is below the rounding error, monotonicity is then decided by the formula; both directions; sizes 2..64
+    let av: [f64; 10] = [0.1, 1.0 / 3.0, 0.7, 1e-5, 123.456, -0.1, -2.0 / 3.0, -1e5 / 7.0, 5e-9, 1e6 / 3.0];
+    let ks: [i64; 16] = [1, -1, 2, -2, 3, -3, 4, -4, 5, -5, 6, -6, 7, -7, 8, -8];
+    for n in 2..=MAXLEN { for kind in 0..4usize {
+        let mut abk: Vec<(f64, i64)> = vec![];
+        if quick { abk.push((av[(n + kind) % 10], 0)); for j in 0..3 { abk.push((av[(n + j + 3 * kind) % 10], ks[(n * 4 + kind * 5 + j * 7) % 16])); } }
+        else { for a in av { abk.push((a, 0)); for k in ks { abk.push((a, k)); } } }
+        for (a, k) in abk {
+            let b = if k == 0 { a } else { ulps(a, k) };
+            let op = match kind { 0 => json!({"op": "linspace", "a": jf64_exact(a), "b": jf64_exact(b), "n": n, "ulps": k}),
+                                  1 => json!({"op": "powspace", "a": jf64_exact(a), "b": jf64_exact(b), "n": n, "p": 1, "ulps": k}),
+                                  2 => json!({"op": "powspace", "a": jf64_exact(a), "b": jf64_exact(b), "n": n, "p": 2, "ulps": k}),
+                                  _ => json!({"op": "powspace", "a": jf64_exact(a), "b": jf64_exact(b), "n": n, "p": {"m": 1, "e": -1}, "ulps": k}) };
+            push(out, json!({"ty": "f64", "init": [], "ops": [op]}));
+        }
+    } }
+}
+
+/// the observers run on a vector that must be all zeros
+fn zero_obs(rng: &mut StdRng, ops: &mut Vec<Value>, n: usize, ty: &str, full: bool) {
+    let cx = ty == "cx"; let f64ty = ty == "f64";
+    ops.push(json!({"op": "norm_1"})); ops.push(json!({"op": "sum"})); ops.push(json!({"op": "abs"}));
+    ops.push(with_v(json!({"op": "dot"}), rng, cx, n, -9, 9));
+    if f64ty { ops.push(json!({"op": "norm_2"})); if full { for p in [1, 2, 3, 8] { ops.push(json!({"op": "norm_p", "p": p})); } } else { let p = [1, 2, 3, 8][rng.gen_range(0..4)]; ops.push(json!({"op": "norm_p", "p": p})); } }
+    if f64ty || cx { ops.push(json!({"op": "norm_inf"})); }
+    if full { let mut o = json!({"op": "find", "x": 0}); if cx { o["xi"] = json!(0); } ops.push(o); ops.push(json!({"op": "sort", "form": "by"})); ops.push(json!({"op": "sum_from", "a": 0})); ops.push(json!({"op": "neg"})); }
+}
+fn zero_case(rng: &mut StdRng, n: usize, ty: &str, push: &mut dyn FnMut(Value)) {
+    let cx = ty == "cx"; let f64ty = ty == "f64";
+    let x = rand_vec_json(rng, n, -9, 9); let xi = rand_vec_json(rng, n, -9, 9);
+    let withv = |name: &str, adopt: bool| -> Value { let mut o = json!({"op": name, "v": x.clone(), "form": "ref"}); if cx { o["vi"] = xi.clone(); } if adopt { o["adopt"] = json!(true); } o };
+    let scal = |name: &str, form: &str, adopt: bool| -> Value { let mut o = json!({"op": name, "x": 0, "form": form}); if cx { o["xi"] = json!(0); } if adopt { o["adopt"] = json!(true); } o };
+    let mut ops: Vec<Value> = vec![];
+    ops.push(withv("sub", true)); zero_obs(rng, &mut ops, n, ty, true);                                            // x - x
+    ops.push(withv("add", true)); ops.push(scal("mul_scalar", "own", true)); zero_obs(rng, &mut ops, n, ty, false);   // 0 + x = x, then x * 0
+    if f64ty { ops.push(withv("add", true)); ops.push(scal("mul_scalar", "left", true)); zero_obs(rng, &mut ops, n, ty, false); }   // 0.0 * x
+    ops.push(withv("add", true)); ops.push(scal("mul_assign", "own", false)); zero_obs(rng, &mut ops, n, ty, false);   // x *= 0
+    ops.push(withv("add", true)); ops.push(withv("sub_assign", false)); zero_obs(rng, &mut ops, n, ty, false);        // x -= x
+    ops.push(withv("add", true)); ops.push(scal("assign", "own", false)); zero_obs(rng, &mut ops, n, ty, false);       // assign(0)
+    if !cx { ops.push(withv("add", true)); ops.push(json!({"op": "clear"})); ops.push(json!({"op": "resize", "n": n})); zero_obs(rng, &mut ops, n, ty, false); }   // clear, resize: Default
+    ops.push(json!({"op": "zeros", "n": n, "adopt": true})); zero_obs(rng, &mut ops, n, ty, false);                    // Vector::zeros(n)
+    ops.push(json!({"op": "new", "n": n, "x": 0, "xi": 0, "adopt": true})); zero_obs(rng, &mut ops, n, ty, false);     // Vector::new(n, 0)
+    let mut c = json!({"ty": ty, "init": x, "ops": ops}); if cx { c["initi"] = xi.clone(); }
+    push(c);
+}
+
+fn special_case(rng: &mut StdRng, n: usize, kind: usize, ty: &str, push: &mut dyn FnMut(Value)) {
+    let cx = ty == "cx"; let f64ty = ty == "f64";
+    let w: Vec<i64> = match kind {
+        0 => (0..n).map(|k| if (k + n) % 2 == 0 { 1 } else { -1 }).collect(),
+        1 => { let mut w = vec![0i64; n]; w[[0, n - 1, n / 2][n % 3]] = if n % 2 == 0 { 7 } else { -7 }; w }
+        2 => (0..n).map(|k| (k / 2) as i64 - 3).collect(),
+        3 => (0..n).map(|k| 3 - (k / 2) as i64).collect(),
+        4 => vec![[0i64, 1, -1, 5][n % 4]; n],
+        _ => { let mut w: Vec<i64> = (0..n).map(|_| rng.gen_range(-5..=5)).collect();
+               let j1 = if n % 2 == 0 { 0 } else { rng.gen_range(0..n) }; let j2 = rng.gen_range(0..n);
+               w[j2] = if n % 4 < 2 { 9 } else { -9 }; w[j1] = if n % 4 < 2 { -9 } else { 9 }; w }
+    };
+    // imaginary parts: zero (integer moduli, ties decided by the real parts) or the mirrored real parts
+    let wi: Vec<i64> = if matches!(kind, 2 | 3) { w.iter().rev().cloned().collect() } else { vec![0; n] };
+    let find = |j: usize| -> Value { let mut o = json!({"op": "find", "x": w[j]}); if cx { o["xi"] = json!(wi[j]); } o };
+    let mut ops: Vec<Value> = vec![json!({"op": "norm_1"}), json!({"op": "abs"}), json!({"op": "sum"}), json!({"op": "neg"})];
+    if f64ty || cx { ops.push(json!({"op": "norm_inf"})); }
+    if f64ty { ops.push(json!({"op": "norm_2"})); for p in [1, 2, 5] { ops.push(json!({"op": "norm_p", "p": p})); } }
+    { let mut o = json!({"op": "dot", "v": w.clone()}); if cx { o["vi"] = json!(wi.clone()); } ops.push(o); }
+    ops.push(find(n - 1)); ops.push(find(n / 2)); ops.push(find(0));
+    { let mut o = json!({"op": "find", "x": 0}); if cx { o["xi"] = json!(0); } ops.push(o); }
+    { let mut o = json!({"op": "find", "x": 99}); if cx { o["xi"] = json!(0); } ops.push(o); }
+    { let a = rng.gen_range(0..n); ops.push(json!({"op": "product_slice", "a": a, "b": (a + 2).min(n - 1)})); }
+    if kind == 0 || (kind == 4 && w[0].abs() <= 1) { ops.push(json!({"op": "product"})); ops.push(json!({"op": "product_from", "a": 0})); }
+    // sort / sort_desc on ties, on already sorted and on reverse-sorted input; find after sorting (first of equal elements)
+    ops.push(json!({"op": "sort", "form": "std"})); ops.push(find(n / 2)); ops.push(json!({"op": "sort", "form": "by"}));
+    ops.push(json!({"op": "sort_desc"})); ops.push(find(n - 1)); ops.push(json!({"op": "sort_desc"})); ops.push(json!({"op": "sort", "form": "std"}));
+    if f64ty || cx { ops.push(json!({"op": "norm_inf"})); }
+    let mut c = json!({"ty": ty, "init": w, "ops": ops}); if cx { c["initi"] = json!(wi); }
+    push(c);
 }
